@@ -177,14 +177,29 @@ def check_dataset(t: Tally, defn, doc, files, stream_pkts, use_raw, case, string
             t.violation({"kind": "harness: generator raised"}, case, observed=repr(e)[:200])
             return
         try:
-            # the documented argument types: one str / Path, or any iterable of them (list, tuple, one-shot generator, Path objects)
+            # the documented argument types: one str / Path, or any iterable of them (list, tuple, one-shot generator, Path objects, a producer that re-uses one scratch path)
             import pathlib
-            form = (len(files) + sum(len(p) for p in case.get("packets", [])[:3]) + (1 if use_raw else 0)) % 5
-            if len(files) == 1 and form % 2 == 0:
+            form = (len(files) + sum(len(p) for p in case.get("packets", [])[:3]) + (1 if use_raw else 0)) % 6
+            scratch = files[0] + ".unpacked"
+
+            def producer():
+                # a producer that unpacks each file to ONE scratch path just before handing that path over (archives, compressed passes): the
+                # path is good until the next one is asked for
+                import shutil
+                for f in files:
+                    shutil.copyfile(f, scratch)
+                    yield scratch
+            if form == 5:
+                arg = producer()
+            elif len(files) == 1 and form % 2 == 0:
                 arg = files[0] if form == 0 else pathlib.Path(files[0])
             else:
                 arg = [list(files), tuple(files), (f for f in files), iter([pathlib.Path(f) for f in files]), map(str, files)][form]
-            ds = xarr.create_dataset(arg, defn if defn_arg is None else defn_arg, use_raw_values=use_raw, **gen_kwargs)
+            try:
+                ds = xarr.create_dataset(arg, defn if defn_arg is None else defn_arg, use_raw_values=use_raw, **gen_kwargs)
+            finally:
+                if form == 5 and os.path.exists(scratch):
+                    os.unlink(scratch)
         except Exception as e:  # noqa: BLE001
             t.evals += 1
             t.outcomes["create_dataset-raised"] += 1
